@@ -245,7 +245,10 @@ Section WithHash.
 
   (* every bit index is below 2048, so a bloom fits the 256 bytes of LogBytes *)
   Lemma digest_idx_lt d i : digest_idx d i < 2048.
-  Proof. unfold digest_idx, logs_bloom_bits. apply N.mod_lt. discriminate. Qed.
+  Proof.
+    unfold digest_idx, logs_bloom_bits. change (2048 - 1) with (N.ones 11).
+    rewrite N.land_ones. apply N.mod_lt. discriminate.
+  Qed.
 End WithHash.
 
 (* ---------- bytes ---------- *)
@@ -261,33 +264,46 @@ Proof.
   rewrite fold_left_app. apply G.
 Qed.
 
-Lemma be_bytes_length n v : length (be_bytes n v) = n.
-Proof. induction n; cbn [be_bytes length]; congruence. Qed.
+Lemma le_bytes_length n : forall v, length (le_bytes n v) = n.
+Proof. induction n; intro v; cbn [le_bytes length]; congruence. Qed.
 
-Lemma be_val_be_bytes n : forall v, be_val (be_bytes n v) = v mod 256 ^ N.of_nat n.
+Lemma n_be_bytes_length n v : length (n_be_bytes n v) = n.
+Proof. unfold n_be_bytes. now rewrite rev_length, le_bytes_length. Qed.
+
+Lemma land_255 v : N.land v 255 = v mod 256.
+Proof. change 255 with (N.ones 8). now rewrite N.land_ones. Qed.
+
+Lemma shiftr_8 v : N.shiftr v 8 = v / 256.
+Proof. now rewrite N.shiftr_div_pow2. Qed.
+
+Lemma be_val_n_be_bytes n : forall v, be_val (n_be_bytes n v) = v mod 256 ^ N.of_nat n.
 Proof.
+  unfold n_be_bytes.
   induction n as [|n IH]; intro v.
   - cbn. now rewrite N.mod_1_r.
-  - cbn [be_bytes].
-    change ((v / 2 ^ (8 * N.of_nat n)) mod 256 :: be_bytes n v)
-      with ([(v / 2 ^ (8 * N.of_nat n)) mod 256] ++ be_bytes n v).
-    rewrite be_val_app, be_bytes_length, IH.
-    replace (be_val [(v / 2 ^ (8 * N.of_nat n)) mod 256]) with ((v / 2 ^ (8 * N.of_nat n)) mod 256)
-      by (unfold be_val; cbn; lia).
+  - cbn [le_bytes rev]. rewrite be_val_app, IH.
+    change (N.of_nat (length [N.land v 255])) with 1.
+    rewrite land_255, shiftr_8.
+    replace (be_val [v mod 256]) with (v mod 256) by (unfold be_val; cbn; lia).
     rewrite Nat2N.inj_succ, N.pow_succ_r'.
-    replace (2 ^ (8 * N.of_nat n)) with (256 ^ N.of_nat n)
-      by (change 256 with (2 ^ 8); now rewrite <- N.pow_mul_r).
     set (p := 256 ^ N.of_nat n).
     assert (Hp : p <> 0) by (apply N.pow_nonzero; discriminate).
-    rewrite (N.mul_comm 256 p).
-    rewrite N.mod_mul_r by (try assumption; discriminate). lia.
+    rewrite N.mod_mul_r by (try assumption; discriminate).
+    change (256 ^ 1) with 256. lia.
 Qed.
 
-Lemma be_bytes_ok n v : bytes_ok (be_bytes n v) = true.
+Lemma le_bytes_ok n : forall v, bytes_ok (le_bytes n v) = true.
 Proof.
-  induction n as [|n IH]; cbn [be_bytes bytes_ok forallb]; [reflexivity|].
-  fold (bytes_ok (be_bytes n v)). rewrite IH, andb_true_r. unfold byte_ok.
-  apply N.ltb_lt. apply N.mod_lt. discriminate.
+  induction n as [|n IH]; intro v; cbn [le_bytes bytes_ok forallb]; [reflexivity|].
+  fold (bytes_ok (le_bytes n (N.shiftr v 8))). rewrite IH, andb_true_r. unfold byte_ok.
+  apply N.ltb_lt. rewrite land_255. apply N.mod_lt. discriminate.
+Qed.
+
+Lemma n_be_bytes_ok n v : bytes_ok (n_be_bytes n v) = true.
+Proof.
+  unfold n_be_bytes, bytes_ok. apply forallb_forall. intros x Hx. apply in_rev in Hx.
+  pose proof (le_bytes_ok n v) as Hok. unfold bytes_ok in Hok.
+  rewrite forallb_forall in Hok. now apply Hok.
 Qed.
 
 Lemma byte_len_enough b : b < 256 ^ N.of_nat (byte_len b).
@@ -302,16 +318,16 @@ Qed.
 
 Lemma bloom_bytes_roundtrip b : bloom_of_bytes (bloom_bytes b) = b.
 Proof.
-  unfold bloom_of_bytes, bloom_bytes. rewrite be_val_be_bytes.
+  unfold bloom_of_bytes, bloom_bytes. rewrite be_val_n_be_bytes.
   apply N.mod_small, byte_len_enough.
 Qed.
 
 Lemma bloom_bytes_ok b : bytes_ok (bloom_bytes b) = true.
-Proof. apply be_bytes_ok. Qed.
+Proof. apply n_be_bytes_ok. Qed.
 
 Lemma bloom_log_bytes_roundtrip b : b < 2 ^ 2048 -> bloom_of_bytes (bloom_log_bytes b) = b.
 Proof.
-  intro Hb. unfold bloom_of_bytes, bloom_log_bytes. rewrite be_val_be_bytes.
+  intro Hb. unfold bloom_of_bytes, bloom_log_bytes. rewrite be_val_n_be_bytes.
   apply N.mod_small. unfold logs_bloom_bytes.
   replace (256 ^ N.of_nat 256) with (2 ^ 2048); [exact Hb|].
   change 256 with (2 ^ 8) at 1. rewrite <- N.pow_mul_r. reflexivity.
